@@ -9,12 +9,13 @@ by search).  An axiom that evaluates to false under some assignment is either fa
 not the axiom the contracts intend - both are defects of the trusted base.  Quantifiers nested inside an axiom
 and `exists` are evaluated over a bounded integer range (stated in the output).
 
-This is a BOUNDED cross-check of assumptions, never counted as proof.  usage: prelude_model.py [N] [seed]
+This is a BOUNDED cross-check of assumptions, never counted as proof.  usage: prelude_model.py [N] [seed] [cap of the exhaustive pass]
 """
 import sys, random, re, itertools
 
 PRELUDE = '/verif/spec/prelude.smt2'
 N = int(sys.argv[1]) if len(sys.argv) > 1 else 400
+CAP = int(sys.argv[3]) if len(sys.argv) > 3 else 40000
 SEED = int(sys.argv[2]) if len(sys.argv) > 2 else 1
 INNER = range(-2, 24)  # range of integers for nested quantifiers
 
@@ -350,8 +351,8 @@ for k, ax in enumerate(axioms):
                 total = 1
                 for d in doms: total *= len(d)
                 combos = itertools.product(*doms)
-                if total > 40000:
-                    combos = (tuple(rnd.choice(d) for d in doms) for _ in range(40000))
+                if total > CAP:
+                    combos = (tuple(rnd.choice(d) for d in doms) for _ in range(CAP))
                 for vals in combos:
                     env = {n: v for (n, _), v in zip(vs, vals)}
                     try:
@@ -385,4 +386,5 @@ for k, h in vac:
 for k in thin:
     print('THIN #%d (fewer than N/10 assignments within the model\'s reach): %s' % (k, str(axioms[k])[:160]))
 print('PRELUDE-MODEL axioms=%d checked=%d false=%d skipped=%d assignments_evaluated=%d assignments_out_of_reach=%d per_axiom=%d inner_range=[%d,%d] seed=%d' % (len(axioms), checked, bad, len(skipped), ntried, nskip, N, INNER[0], INNER[-1], SEED))
-sys.exit(1 if bad else 0)
+print('CASES=%d' % ntried)
+sys.exit(1 if (bad or skipped) else 0)
